@@ -656,8 +656,17 @@ def apply_region(body, rg, fired):
 def apply_closure(body, cs, fired):
     """W-closure on a closure found by its token prefix (cs['prefix']); must match exactly once."""
     toks = tokenize(body)
-    pre = texts(tokenize(cs["prefix"]))
-    hits = find_seq(toks, pre)
+    if cs.get("after"):
+        # the closure literal is the token run that starts right after `after` (e.g. "send_if_modified(": the first argument of that call,
+        # whatever its parameter is called); optional=True: no such call => nothing to annotate
+        aft = texts(tokenize(cs["after"]))
+        hits = [h + len(aft) for h in find_seq(toks, aft) if toks[h + len(aft)].text in ("|", "||", "move")]
+        if not hits and cs.get("optional"):
+            return body
+        cs = dict(cs, prefix=cs["after"] + " <closure>")
+    else:
+        pre = texts(tokenize(cs["prefix"]))
+        hits = find_seq(toks, pre)
     if len(hits) != cs.get("count", 1):
         raise LostAnchor("closure prefix %r matches %d times" % (cs["prefix"], len(hits)))
     edits = []
